@@ -265,8 +265,8 @@ def showExc : Exc → String
   | .wte => "wte" | .user => "user" | .base => "base" | .closed => "closed" | .empty => "empty" | .nothing => "nothing"
 
 def showMsg : Msg → String
-  | .info => "info" | .final none => "ok" | .final (some e) => "err:" ++ showExc e
-  | .noneResult => "none" | .userState => "ustate" | .item c => "item" ++ toString c | .endMarker c => "end" ++ toString c
+  | .info => "info" | .final none _ => "ok" | .final (some e) _ => "err:" ++ showExc e
+  | .noneResult => "none" | .userState _ => "ustate" | .item c => "item" ++ toString c | .endMarker c => "end" ++ toString c
 
 def showOut : Out → String
   | .normal => "normal" | .raised e => "raised:" ++ showExc e | .returned => "returned" | .broke => "broke"
@@ -274,18 +274,18 @@ def showOut : Out → String
 
 def run (args : List String) : String :=
   match args with
-  | [p, t, tn, inp, k, a] =>
+  | p :: t :: tn :: inp :: k :: a :: opt =>
     match prog p with
     | none => "bad-op"
     | some (pr, kind) =>
       let target := if t == "u" then Target.raisesUser else if t == "b" then Target.raisesBase else Target.returns
       let inputs := if inp == "-" then [] else inp.toList.map fun c => if c == 'i' then Input.item else if c == 'r' then Input.release else Input.eof
       let async := if a == "k" then Async.kill else Async.raiseWte (a == "c")
-      let (st, out) := PwVerif.Py.run pr { target := target, targetNone := tn == "1" } inputs k.toNat? async
+      let (st, out) := PwVerif.Py.run pr { target := target, targetNone := tn == "1", assigns := opt.contains "assign" } inputs k.toNat? async
       let o := observe kind st
       let he := match o.hasError with | none => "None" | some true => "True" | some false => "False"
       let er := match o.error with | none => "None" | some e => showExc e
-      "out=" ++ showOut out ++ " obs=" ++ he ++ "/" ++ er ++ " trace=" ++ ",".intercalate (st.trace.map toString)
+      "out=" ++ showOut out ++ " obs=" ++ he ++ "/" ++ er ++ " ustate=" ++ toString (parentState kind st) ++ " trace=" ++ ",".intercalate (st.trace.map toString)
         ++ " comms=" ++ ",".intercalate (st.comms.map showMsg) ++ " results=" ++ ",".intercalate (st.results.map showMsg)
   | _ => "bad-op"
 end RunIO
